@@ -96,6 +96,7 @@ def parseV (loaderFloat : Bool) (s : String) : Option V :=
   else if s.startsWith "s" then some (.str (s.drop 1).toString)
   else if s.startsWith "n" then (canonInt (s.drop 1).toString).map fun n => .num n loaderFloat
   else if s.startsWith "f" || s.startsWith "r" then (parseMilli (s.drop 1).toString).map fun m => numOfMilli m true
+  else if s.startsWith "l" then some (.list (items (if s.length == 1 then "-" else (s.drop 1).toString) "|"))
   else none
 
 def parseChains (loaderFloat : Bool) (s : String) : Option (List Chain) :=
@@ -119,6 +120,7 @@ def showV : V → String
   | .str s => "s" ++ s
   | .bool true => "t"
   | .bool false => "b"
+  | .list l => "l" ++ "|".intercalate l
 
 def showChains (cs : List Chain) : String :=
   joinOr (cs.map fun c => joinOr ((c.map fun (k, v) => k ++ "=" ++ showV v).mergeSort (· ≤ ·)) ",") ";"
